@@ -165,9 +165,16 @@ Live_Settled == \A c \in Senders, d \in Dests, n \in 1..MaxSeq :
 Useful(S) == {e \in S : StepRes(e).ok}
 PickOr(S, alt) == IF S = {} THEN alt ELSE RandomElement(S)
 
+\* port / relay-chain edits of a genuine packet message (C13), everything else as sent
+FieldEdits(m) == IF m.act \in {"Recv", "Ack"}
+                 THEN {x \in AltPktMsg([act |-> m.act, c |-> m.c, tag |-> "gen"] @@ m) :
+                         x.tag = "pkt" /\ x.pkt.src = m.pkt.src /\ x.pkt.dst = m.pkt.dst /\ x.pkt.seq = m.pkt.seq /\ x.pkt.data = m.pkt.data}
+                 ELSE {}
 AdvPick ==   \* one altered / forged message, chosen so that no family swamps the others
-  LET k == RandomElement(1..10) IN
-  IF k <= 7 /\ Genuine # {} THEN RandomElement(AltMsg(RandomElement(Genuine)))
+  LET k == RandomElement(1..10)
+      g == IF Genuine # {} THEN RandomElement(Genuine) ELSE [act |-> "none"] IN
+  IF k <= 2 /\ Genuine # {} /\ FieldEdits(g) # {} THEN RandomElement(FieldEdits(g))
+  ELSE IF k <= 7 /\ Genuine # {} THEN RandomElement(AltMsg(g))
   ELSE IF k <= 9 /\ ForgedAck # {} THEN RandomElement(ForgedAck)
   ELSE RandomElement(ForgedClean)
 
